@@ -382,7 +382,8 @@ func generateOTPURL(kind string, param URLParam, extraParams map[string]string) 
 		return nil, ErrSecretRequired
 	}
 
-	label := url.PathEscape(fmt.Sprintf("%s:%s", param.Issuer, param.AccountName))
+	// url.URL.String() escapes Path itself; escaping here as well would double-escape the label.
+	label := fmt.Sprintf("%s:%s", param.Issuer, param.AccountName)
 
 	query := url.Values{}
 	query.Set("secret", param.Secret)
